@@ -194,8 +194,15 @@ func (l *Loop) Run(chunks []Chunk, o Opts) (obs []Obs, failed string) {
 // Chunking draws a partition of stream into delivery chunks (empty chunks allowed).
 func Chunking(t *rapid.T, stream []byte, maxDelta int32) []Chunk {
 	var out []Chunk
-	mode := rapid.IntRange(0, 3).Draw(t, "chunkMode")
+	mode := rapid.IntRange(0, 4).Draw(t, "chunkMode")
+	// a few pauses per stream may be very long (up to 2^28 ms, about three days); the sum of all
+	// deltas stays below 2^31 ms, the range of the time stamps
+	huge := 0
 	delta := func() int32 {
+		if maxDelta >= 5000 && huge < 4 && rapid.IntRange(0, 60).Draw(t, "hugePause?") == 0 {
+			huge++
+			return int32(rapid.OneOf(rapid.IntRange(2000000, 2200000), rapid.IntRange(0, 1<<28), rapid.Just(1<<28)).Draw(t, "hugeDeltaMs"))
+		}
 		return int32(rapid.OneOf(rapid.IntRange(0, 3), rapid.IntRange(0, int(maxDelta))).Draw(t, "deltaMs"))
 	}
 	switch mode {
@@ -205,6 +212,25 @@ func Chunking(t *rapid.T, stream []byte, maxDelta int32) []Chunk {
 		for _, b := range stream {
 			out = append(out, Chunk{[]byte{b}, delta()})
 		}
+		return out
+	case 4: // the way a sender works: one call per message (a chunk starts at a status byte that
+		// begins a message and ends after an F7), now and then two messages in one call
+		start := 0
+		flush := func(end int) {
+			if end > start {
+				out = append(out, Chunk{append([]byte{}, stream[start:end]...), delta()})
+				start = end
+			}
+		}
+		for i, b := range stream {
+			if i > start && b >= 0x80 && b < 0xF8 && b != 0xF7 && rapid.IntRange(0, 5).Draw(t, "split?") > 0 {
+				flush(i)
+			}
+			if b == 0xF7 && rapid.IntRange(0, 5).Draw(t, "splitAfterF7?") > 0 {
+				flush(i + 1)
+			}
+		}
+		flush(len(stream))
 		return out
 	}
 	pos := 0
